@@ -1320,7 +1320,8 @@ class Wrapc(util.WrapperMixin):
                 impl.append("#endif  // " + node.cpp_if)
         else:
             # There is no C wrapper, have Fortran call the function directly.
-            fmt_func.C_name = node.ast.name
+            # The name attribute renames the wrapper, not the C function.
+            fmt_func.C_name = node.ast.get_name(use_attr=False)
 
     def write_capsule_code(self):
         """Write a function used to delete memory when C/C++
